@@ -63,6 +63,15 @@ func (c *client) Dial(ctx context.Context) error {
 		c.conn = conn
 		c.connM.Unlock()
 
+		// Close() (or a failed send) may have run while we were dialing and
+		// found no connection to close yet.
+		select {
+		case <-c.done:
+			conn.Close()
+			return
+		default:
+		}
+
 		// time out send hello if it take long
 		if deadline, ok := ctx.Deadline(); ok {
 			if err = c.conn.SetWriteDeadline(deadline); err != nil {
